@@ -213,6 +213,30 @@ def replace_token_from_lookup(s, lookup):
         return str(untokenize(result).decode('utf-8'))
 
 
+def format_parameter(value, digits=4):
+    """
+    Format a numeric parameter for insertion into an equation.
+
+    Uses the short fixed-point form when it represents the value exactly, otherwise falls back to the
+    full-precision representation, so that a parameter is never silently rounded.
+
+    >>> format_parameter(.2)
+    '0.2000'
+    >>> format_parameter(.123456)
+    '0.123456'
+    >>> format_parameter(.9, 3)
+    '0.900'
+
+    :param value: float
+    :param digits: int
+    :return: str
+    """
+    short = '%0.*f' % (digits, value)
+    if float(short) == float(value):
+        return short
+    return repr(float(value))
+
+
 def create_equation_from_terms(terms):
     """
     Create a string equation (right hand side) from a list of terms.
